@@ -342,9 +342,9 @@ theorem step_loc {L : Loc} {s s' : St} {tid : Nat} {op : Op} (hinv : LocInv L s)
           · subst e1; exact ⟨hh.cur.1, by intro e he; cases he⟩
           · exact h0.1.2 p (List.mem_filter.mp hp).1
         cases hpend : c.pending with
-        | nil => simp only [hpend]; exact key s c (HLoc.refl_of hcur rfl rfl rfl)
+        | nil => simp only; exact key s c (HLoc.refl_of hcur rfl rfl rfl)
         | cons e rest =>
-          simp only [hpend]
+          simp only
           by_cases hss : isStepStart e = true
           · simp only [hss, if_true]; exact key s c (HLoc.refl_of hcur rfl rfl rfl)
           · simp only [hss]
